@@ -21,15 +21,15 @@ void harness(void)
   g_topo = &T;
   vx_exc = false; g_errors = 0; vx_throws.value = pika_error_success;
   /* ---- the machine ---- */
-  T.nsockets = nd_range(1, B_MAXS);
-#ifdef B_NSOCKETS
-  VX_ASSUME(T.nsockets == B_NSOCKETS);
-#endif
-  T.socket_cores[0] = nd_range(1, B_MAXC);
-  T.socket_cores[1] = T.nsockets > 1 ? nd_range(1, B_MAXC) : 0;
+  /* the shape (sockets, cores per socket) is a compile-time parameter of the unit: the loops over sockets and cores
+   * then have constant bounds; PUs per core, process mask, thread count and process-mask switch stay symbolic */
+  T.nsockets = B_S;
+  T.socket_cores[0] = B_C0;
+  T.socket_cores[1] = B_C1;
   T.ncores = T.socket_cores[0] + T.socket_cores[1];
-  T.core_pus[0] = nd_range(1, B_MAXP); T.core_pus[1] = nd_range(1, B_MAXP); T.core_pus[2] = nd_range(1, B_MAXP);
-  T.core_pus[3] = nd_range(1, B_MAXP); T.core_pus[4] = nd_range(1, B_MAXP); T.core_pus[5] = nd_range(1, B_MAXP);
+  /* PUs per core: bit c of B_P set => core c has 2 hardware threads, else 1 (compile-time parameter as well) */
+  T.core_pus[0] = 1 + ((B_P >> 0) & 1); T.core_pus[1] = 1 + ((B_P >> 1) & 1); T.core_pus[2] = 1 + ((B_P >> 2) & 1);
+  T.core_pus[3] = 1 + ((B_P >> 3) & 1); T.core_pus[4] = 1 + ((B_P >> 4) & 1); T.core_pus[5] = 1 + ((B_P >> 5) & 1);
   T.pu_base[0] = 0;
   T.pu_base[1] = T.pu_base[0] + T.core_pus[0]; T.pu_base[2] = T.pu_base[1] + T.core_pus[1]; T.pu_base[3] = T.pu_base[2] + T.core_pus[2];
   T.pu_base[4] = T.pu_base[3] + T.core_pus[3]; T.pu_base[5] = T.pu_base[4] + T.core_pus[4];
@@ -44,8 +44,7 @@ void harness(void)
   aff.size = nd_range(1, T.npus + 1);
   size_t num_threads = aff.size;
   size_t used_cores = 0;                 /* init_runtime.cpp always passes 0 */
-  size_t max_cores = nondet_size();
-  VX_ASSUME(max_cores >= T.ncores);     /* pika.cores below the machine size (deliberate restriction to fewer cores) is not decided here */
+  size_t max_cores = T.ncores;          /* pika.cores below the machine size (deliberate restriction to fewer cores) is not decided here */
   DECODE(&T, &aff, used_cores, max_cores, &npu, upm, &vx_throws);
   if (vx_exc)
   {
@@ -64,6 +63,5 @@ void harness(void)
   VX_ASSERT(npu.a[k1] < 16 && (uint16_t) (1u << npu.a[k1]) == m1, "bounded: the reported PU number is the PU the worker is bound to");
   VX_ASSERT(k1 == k2 || m1 != m2, "bounded: two workers never share a PU");
   if (upm && T.proc_mask != all) VX_REACH("partial_mask");
-  if (T.nsockets == 2 && T.core_pus[0] != T.core_pus[T.socket_cores[0]]) VX_REACH("asymmetric_sockets");
   if (num_threads == limit) VX_REACH("all_pus_used");
 }
